@@ -48,11 +48,28 @@ struct Counted
     }
 };
 
+/// 768-byte trivially copyable value, every word equal to the id: a copy that overlaps a write shows as a torn value
+struct Wide
+{
+    static constexpr size_t   N    = 96;
+    static constexpr uint64_t torn = ~uint64_t{0};
+    uint64_t                  w[N];
+    Wide() { for (auto& x : w) x = 0; }
+    explicit Wide(uint64_t v) { for (auto& x : w) x = v; }
+};
+
 template<class V> V mk(uint64_t v);
 template<> uint64_t mk<uint64_t>(uint64_t v) { return v; }
 template<> Counted  mk<Counted>(uint64_t v) { return Counted(v); }
+template<> Wide     mk<Wide>(uint64_t v) { return Wide(v); }
 inline uint64_t idof(uint64_t v) { return v; }
 inline uint64_t idof(const Counted& v) { return *v.p; }
+inline uint64_t idof(const Wide& v)
+{
+    for (size_t i = 1; i < Wide::N; ++i)
+        if (v.w[i] != v.w[0]) return Wide::torn;
+    return v.w[0];
+}
 
 inline allow to_allow(int a) { return a == 1 ? allow::insert : (a == 2 ? allow::update : allow::insert_or_update); }
 
@@ -304,6 +321,9 @@ std::unique_ptr<IC> HV_CAT(make_, HK)(const Cfg& g)
         if (g.ts) return std::make_unique<Impl<Counted, thread_safe::yes>>(g);
         return std::make_unique<Impl<Counted, thread_safe::no>>(g);
     }
+#ifdef HV_WIDE
+    if (g.val == 'w' && g.ts) return std::make_unique<Impl<Wide, thread_safe::yes>>(g);
+#endif
     if (g.ts) return std::make_unique<Impl<uint64_t, thread_safe::yes>>(g);
     return std::make_unique<Impl<uint64_t, thread_safe::no>>(g);
 }
